@@ -485,6 +485,9 @@ class RunLengthArray(NPSIndexable, np.lib.mixins.NDArrayOperatorsMixin):
         return self.__class__(np.append(all_events, self._events[-1]), sum_values)
 
     def _get_position(self, idx):
+        idx = np.asanyarray(idx)
+        if idx.dtype.kind in "iu":
+            idx = idx.astype(np.int64)  # position + length must not wrap (or overflow) in a narrow index type
         idx = np.where(idx < 0, len(self)+idx, idx)
         return self._values[np.searchsorted(self._events, idx, side="right")-1]
 
